@@ -113,3 +113,35 @@ for _tag, _marks, _pops, _comps in (("some_targets", ("Y", None, " y ", "n"), ["
 CONTRACTS["programs:ProgramSet._read_targeting#row_named_all"] = dict(
     schema=schema, fragment={"iter": "tables[0][2:]"}, make_env=_env_target_row(("y", None, "y", None), short_name="All"), call_stubs=_tr_stubs, concrete_new=["Program", "TimeSeries"],
     raises={"Exception": "True"}, raises_props=["C18"], ensures=[], defined_props=["C16", "C18"])
+
+
+# ---- the spending sheet, one program table (body of the loop over tables in ProgramSet._read_spending): each series of the table becomes the program's
+# series of that name (legacy names `Total spend` / `Capacity` included); a series read without units keeps the units the program had
+def _env_spend_table(legacy):
+    def make(it):
+        from pyvc.interp import PyObjV
+        from pyvc.core import Opaque
+        from pyvc import source
+
+        pm, um = source.load("programs"), source.load("utils")
+        ts = lambda tag, units, data=True: PyObjV("TimeSeries", um, {"t": [], "vals": [], "units": units, "assumption": (1.0 if data else None), "sigma": None, "_sampled": False, "TAG": tag})
+        prog = PyObjV("Program", pm, {"name": "prog", "label": "Prog", "spend_data": ts("old spend", "$/year"), "unit_cost": ts("old unit cost", "$/person (one-off)"), "capacity_constraint": ts("old cc", "people/year"),
+                                      "saturation": ts("old sat", "N.A."), "coverage": ts("old cov", "people/year")})
+        rows = {("Total spend" if legacy else "Annual spend"): ts("new spend", None), "Unit cost": ts("new unit cost", "$/person/year"), ("Capacity" if legacy else "Capacity constraint"): ts("new cc", None, data=False),
+                "Saturation": ts("new sat", None, data=False), "Coverage": ts("new cov", "people", data=False)}
+        tdve = PyObjV("TimeDependentValuesEntry", source.load("excel"), {"name": "prog", "ts": rows, "tvec": [2020.0]})
+        return {"self": PyObjV("ProgramSet", pm, {"name": "ps", "programs": {"prog": prog}}), "table": Opaque("table"), "start_row": 1, "sheet": Opaque("sheet"), "_allow_missing_data": False, "times": set(), "TDVE": tdve, "PROG": prog}
+
+    return make
+
+
+for _legacy in (False, True):
+    CONTRACTS["programs:ProgramSet._read_spending#table_%s" % ("legacy_names" if _legacy else "current_names")] = dict(
+        schema=schema, fragment={"iter": "zip(tables, start_rows)"}, make_env=_env_spend_table(_legacy),
+        call_stubs={"TimeDependentValuesEntry.from_rows": (lambda it, table: it.live_env["TDVE"]), "logger.warning": (lambda it, *a, **k: None)},
+        ensures=[("C16.each_series_of_the_table_becomes_the_programs_series_of_that_name",
+                  "PROG.spend_data.TAG == 'new spend' and PROG.unit_cost.TAG == 'new unit cost' and PROG.capacity_constraint.TAG == 'new cc' and PROG.saturation.TAG == 'new sat' and PROG.coverage.TAG == 'new cov'"),
+                 ("C16.a_series_without_units_keeps_the_units_the_program_had", "PROG.spend_data.units == '$/year' and PROG.capacity_constraint.units == 'people/year' and PROG.saturation.units == 'N.A.'"),
+                 ("C16.units_read_from_the_table_are_kept", "PROG.unit_cost.units == '$/person/year' and PROG.coverage.units == 'people'"),
+                 ("C16.the_years_of_the_table_are_collected", "times == {2020.0}")],
+        defined_props=["C16"])
